@@ -373,14 +373,23 @@ func combineChunks(chunks []any) (any, bool) {
 		return nil, false
 	}
 	m := map[string]any{}
+	named := true
 	for _, c := range chunks {
-		cm, ok := c.(map[string]any)
-		if !ok {
+		var cm map[string]any
+		switch x := c.(type) {
+		case map[string]any:
+			cm, named = x, false
+		case Vars:
+			cm = x
+		default:
 			return nil, false
 		}
 		for k, v := range cm {
 			m[k] = v
 		}
+	}
+	if named {
+		return Vars(m), true
 	}
 	return m, true
 }
@@ -578,6 +587,7 @@ var frontNames = [...]string{"graph", "chain", "workflow"}
 type builder interface {
 	AddLambdaNode(key string, node *compose.Lambda, opts ...compose.GraphAddNodeOpt) error
 	AddPassthroughNode(key string, opts ...compose.GraphAddNodeOpt) error
+	AddGraphNode(key string, node compose.AnyGraph, opts ...compose.GraphAddNodeOpt) error
 	AddEdge(startNode, endNode string) error
 	AddBranch(startNode string, branch *compose.GraphBranch) error
 }
@@ -586,6 +596,7 @@ type builder interface {
 type chainOps interface {
 	AppendLambda(node *compose.Lambda, opts ...compose.GraphAddNodeOpt)
 	AppendPassthrough(opts ...compose.GraphAddNodeOpt)
+	AppendGraph(node compose.AnyGraph, opts ...compose.GraphAddNodeOpt)
 	AppendParallel(p *compose.Parallel)
 	AppendBranch(b *compose.ChainBranch)
 }
@@ -598,6 +609,9 @@ func (a chainAd[I, O]) AppendLambda(node *compose.Lambda, opts ...compose.GraphA
 func (a chainAd[I, O]) AppendPassthrough(opts ...compose.GraphAddNodeOpt) {
 	a.c.AppendPassthrough(opts...)
 }
+func (a chainAd[I, O]) AppendGraph(node compose.AnyGraph, opts ...compose.GraphAddNodeOpt) {
+	a.c.AppendGraph(node, opts...)
+}
 func (a chainAd[I, O]) AppendParallel(p *compose.Parallel)  { a.c.AppendParallel(p) }
 func (a chainAd[I, O]) AppendBranch(b *compose.ChainBranch) { a.c.AppendBranch(b) }
 
@@ -605,6 +619,7 @@ func (a chainAd[I, O]) AppendBranch(b *compose.ChainBranch) { a.c.AppendBranch(b
 type wfOps interface {
 	AddLambdaNode(key string, node *compose.Lambda, opts ...compose.GraphAddNodeOpt) *compose.WorkflowNode
 	AddPassthroughNode(key string, opts ...compose.GraphAddNodeOpt) *compose.WorkflowNode
+	AddGraphNode(key string, node compose.AnyGraph, opts ...compose.GraphAddNodeOpt) *compose.WorkflowNode
 	End() *compose.WorkflowNode
 	AddBranch(from string, branch *compose.GraphBranch)
 }
@@ -617,6 +632,9 @@ func (a wfAd[I, O]) AddLambdaNode(key string, node *compose.Lambda, opts ...comp
 func (a wfAd[I, O]) AddPassthroughNode(key string, opts ...compose.GraphAddNodeOpt) *compose.WorkflowNode {
 	return a.w.AddPassthroughNode(key, opts...)
 }
+func (a wfAd[I, O]) AddGraphNode(key string, node compose.AnyGraph, opts ...compose.GraphAddNodeOpt) *compose.WorkflowNode {
+	return a.w.AddGraphNode(key, node, opts...)
+}
 func (a wfAd[I, O]) End() *compose.WorkflowNode { return a.w.End() }
 func (a wfAd[I, O]) AddBranch(from string, branch *compose.GraphBranch) {
 	a.w.AddBranch(from, branch)
@@ -628,9 +646,10 @@ type runFns struct {
 }
 
 type gHandle struct {
-	b       builder  // front end: Graph
-	ch      chainOps // front end: Chain
-	wf      wfOps    // front end: Workflow
+	b       builder          // front end: Graph
+	ch      chainOps         // front end: Chain
+	wf      wfOps            // front end: Workflow
+	any     compose.AnyGraph // the same object, to be nested into another graph
 	compile func(ctx context.Context, opts ...compose.GraphCompileOption) (*runFns, error)
 }
 
@@ -681,13 +700,13 @@ func mkFront[I, O any](front int, withState bool) *gHandle {
 	switch front {
 	case feChain:
 		c := compose.NewChain[I, O](nopts...)
-		h.ch, compile = chainAd[I, O]{c}, c.Compile
+		h.ch, h.any, compile = chainAd[I, O]{c}, c, c.Compile
 	case feWorkflow:
 		w := compose.NewWorkflow[I, O](nopts...)
-		h.wf, compile = wfAd[I, O]{w}, w.Compile
+		h.wf, h.any, compile = wfAd[I, O]{w}, w, w.Compile
 	default:
 		g := compose.NewGraph[I, O](nopts...)
-		h.b, compile = g, g.Compile
+		h.b, h.any, compile = g, g, g.Compile
 	}
 	h.compile = func(ctx context.Context, opts ...compose.GraphCompileOption) (*runFns, error) {
 		r, err := compile(ctx, opts...)
